@@ -1,5 +1,6 @@
 import Harper.Basic.Proto
 import Harper.Model.Effects
+import Harper.Model.ConfigPaths
 /-!
 # Driver for the effect model (C10)
 
@@ -99,5 +100,61 @@ def handleEff (args : List String) : String :=
   match (splitAt "|" args).mapM effParseEntry with
   | some es => joinSp ("ok" :: effSortUniq ((traceAll symPaths es).map tagEff))
   | none => "bad-op"
+
+/-! ## configured path strings → resolved paths (`cfgp`), and traces over resolved paths (`effc`)
+
+`cfgp <home> | <cwd> | <XDG_CONFIG_HOME> | <XDG_DATA_HOME> | <userDictPath> | <fileDictPath> | <statsPath>`
+→ `ok U:<path> F:<path> S:<path>` or `rejected`. `<home>`, `<cwd>`: code points of an absolute path;
+an XDG variable: `-` (unset) or `s <code points>`; a key: `-` (absent), `n` (not a string) or
+`s <code points>`. Paths are shown as the code points of `/c1/c2/…`.
+
+`effc <the seven groups above> | <entry> | <entry> | …` → `ok <sorted effects over full paths>`
+(`..` resolved lexically, as the kernel would) or `rejected`. -/
+
+def showPath (p : Path) : String :=
+  if p = [] then "47" else effDots (p.flatMap fun c => '/' :: c)
+
+def optStr? : List String → Option (Option (List Char))
+  | ["-"] => some none
+  | "s" :: cps => (charsOf cps).map some
+  | _ => none
+
+def keyVal? : List String → Option (Option Val)
+  | ["-"] => some none
+  | ["n"] => some (some .other)
+  | "s" :: cps => (charsOf cps).map fun cs => some (.str cs)
+  | _ => none
+
+def parseCfgGroups : List (List String) → Option (DirsEnv × Path × PathCfg)
+  | [home, cwd, xc, xd, u, f, st] => do
+    let home ← charsOf home; let cwd ← charsOf cwd
+    let xc ← optStr? xc; let xd ← optStr? xd
+    let u ← keyVal? u; let f ← keyVal? f; let st ← keyVal? st
+    some (⟨components home, xc, xd⟩, components cwd, ⟨u, f, st⟩)
+  | _ => none
+
+def handleCfgp (args : List String) : String :=
+  match parseCfgGroups (splitAt "|" args) with
+  | some (e, cwd, c) =>
+    match fromLspConfig e cwd c with
+    | some P => s!"ok U:{showPath P.userDict} F:{showPath P.fileDir} S:{showPath P.stats}"
+    | none => "rejected"
+  | none => "bad-op"
+
+def tagEffFull : Eff → String
+  | .readFile p => "r:" ++ showPath (normDots [] p)
+  | .createFile p => "c:" ++ showPath (normDots [] p)
+  | .appendFile p => "a:" ++ showPath (normDots [] p)
+  | .mkdirs p => "m:" ++ showPath (normDots [] p)
+  | e => tagEff e
+
+def handleEffc (args : List String) : String :=
+  let groups := splitAt "|" args
+  match parseCfgGroups (groups.take 7), (groups.drop 7).mapM effParseEntry with
+  | some (e, cwd, c), some es =>
+    match fromLspConfig e cwd c with
+    | some P => joinSp ("ok" :: effSortUniq ((traceAll P es).map tagEffFull))
+    | none => "rejected"
+  | _, _ => "bad-op"
 
 end Harper.Driver.Effects
